@@ -938,6 +938,19 @@ func c13RunOpt(c *vt.Ctx, s c13Scenario, noGuard bool) {
 				}
 			}
 		}
+		// "Exactly one default route per enabled family" must survive the segment the pod sits on:
+		// a VPC segment carries router advertisements, and an interface with accept_ra=1 grows a
+		// second `default via fe80::… proto ra` as soon as one arrives.  Every pod-side interface
+		// that faces the ENI segment (exclusive ENI, ipvlan, vlan) must therefore be configured
+		// with accept_ra=0 when the pod has IPv6.
+		if s.V6 && s.DP != c13DPPolicy {
+			for i := range pod.Ifaces {
+				key := "/proc/sys/net/ipv6/conf/" + c13IfName(i) + "/accept_ra"
+				if v, ok := cont.Sysctl[key]; !ok || v != "0" {
+					k.fail(cont, "pod%d/%s: IPv6 pod interface on the ENI segment is not configured with accept_ra=0 (%s = %q, set: %v): a router advertisement would add a second default route", p, c13IfName(i), key, v, ok)
+				}
+			}
+		}
 		// with several interfaces, IPv4 traffic bound to an interface uses that interface
 		if multi && s.V4 {
 			for i := range pod.Ifaces {
